@@ -31,7 +31,7 @@ def fmt_state(d):
 
 def apply_items(spec, items):
     for it in items.split(","):
-        p = it.split(".")
+        p = it.split("*")[0].split(".")     # `item*N`: N copies
         if p[0] == "p":
             spec[int(p[1])] = p[2]
         elif p[0] == "d":
